@@ -215,9 +215,12 @@ def generate(ctx):
         for _ in range(2):
             t = render(ctx, ast)
             texts.append(t)
-            cid = ctx.add('parse_json_path %s' % gen.hexarg(t), diff=not has_float(want), meta=('parse', want, t)).id
+            # float literals too go through the model (normalise_outcome drops the one thing that differs: the PRINTED text, ryu's
+            # digits on one side and a placeholder on the other)
+            cid = ctx.add('parse_json_path %s' % gen.hexarg(t), meta=('parse', want, t)).id
             ctx.trials.append(cid)
-            ctx.add('reparse_json_path %s' % gen.hexarg(t), diff=not has_float(want), meta=('reparse',))
+            ctx.add('reparse_json_path %s' % gen.hexarg(t), meta=('reparse',))
+        # (print_parse with a float: the model prints a placeholder it cannot read back -- judged on the implementation by meta 'pp')
         ctx.add('print_parse_json_path %s' % want, diff=not has_float(want), meta=('pp', want))
     # long and deep expressions: chains of 64 .. 400 terms of && / || (left-nested by the parser, 250 and more levels deep as an
     # AST), parentheses nested to the right, exists() / filters nested.  The printer model and the class of the round-trip
@@ -346,9 +349,16 @@ def generate(ctx):
 def normalise_outcome(case, o):
     """the printed text of a path with a float literal is ryu's on one side and the placeholder on the other"""
     f = o.split(' ')
-    if f and f[-1].startswith('leaf='):
+    while f and (f[-1].startswith('leaf=') or f[-1].startswith('anyf=')):
         f = f[:-1]
-        o = ' '.join(f)
+    o = ' '.join(f)
+    if case.line.startswith('reparse_json_path'):
+        # ok <structure> <structure after print + parse>: nothing printed is in the outcome.  With a float literal the model's
+        # second parse read the placeholder text, not ryu's digits: only then is the second field left to the judge (which
+        # requires parsed = reparsed of the implementation alone wherever only the floats keep the path out of the theorem's class)
+        if len(f) >= 3 and f[0] == 'ok' and 'vd' in f[1]:
+            return ' '.join(f[:2])
+        return o
     if len(f) >= 3 and f[0] in ('ok', 'err') and 'vd' in f[1]:
         return ' '.join(f[:2])
     if f[0] == 'err' and len(f) >= 3 and case.line.startswith('print_parse') and 'vd' in case.line:
@@ -374,7 +384,7 @@ def deep_probe(ctx):
             ctx.count('deep_path_texts', '%s:%s' % (kind, o.split(' ')[0]))
             if o.startswith('ok') or o.startswith('err'):
                 continue
-            if k and o.startswith('abort') and n >= mins.get(kind, 1 << 62):
+            if k and o in core.STACK_OVERFLOW_DEATHS and n >= mins.get(kind, 1 << 62):
                 ctx.known_hits['deep-recursion-path-parser'] = ctx.known_hits.get('deep-recursion-path-parser', 0) + 1
             else:
                 ctx.violate('a nested path text brings the parser down' if o.startswith('abort') else 'a nested path text makes the parser panic',
@@ -403,10 +413,20 @@ def judge(ctx):
             # implementation's own print-then-parse must give back the same structure
             mo = ctx.model.get(c.id, '')
             f = o.split(' ')
-            if mo.endswith(' leaf=1'):
+            if ' leaf=1' in mo:
                 ctx.count('reparse', 'theorem-applies')
                 if len(f) != 3 or f[0] != 'ok' or f[1] != f[2]:
                     ctx.violate('an accepted path in the class of the round-trip theorem does not print and parse back to itself',
+                                case=c.line, text=repr(gen.unhexarg(c.line.split(' ')[1]))[:200], observed=o[:300], model=mo[:300])
+            elif ' anyf=1' in mo:
+                # only its float literals keep the path out of the theorem's class (the model prints a placeholder for them):
+                # judged on the implementation alone -- ryu's digits must parse back to the same double, the rest as proved
+                ctx.count('reparse', 'theorem-applies-but-for-floats: judged on the implementation')
+                cls = 'negative-infinity-literal-not-reparsed'
+                if len(f) == 3 and f[0] == 'ok' and f[2] == 'err' and 'vdfff0000000000000' in f[1] and cls in ctx.open_classes:
+                    ctx.known_hits[cls] = ctx.known_hits.get(cls, 0) + 1        # `-inf` is printed but not read (open known finding)
+                elif len(f) != 3 or f[0] != 'ok' or f[1] != f[2]:
+                    ctx.violate('an accepted path with float literals (otherwise in the class of the round-trip theorem) does not print and parse back to itself',
                                 case=c.line, text=repr(gen.unhexarg(c.line.split(' ')[1]))[:200], observed=o[:300], model=mo[:300])
             elif mo.startswith('ok '):
                 ctx.count('reparse', 'outside-class')
